@@ -153,7 +153,7 @@ func init() {
 		// (a last operation that agrees with the model on success/failure but loaded the phantom version on
 		// the way - LoadVersionForOverwriting refused because of a pinned version - is found by the scan below)
 		// state oracles of C14 name the version they complain about
-		if strings.HasSuffix(c.V.Oracle, "versions/phantom") {
+		if strings.HasSuffix(c.V.Oracle, "versions/phantom") || strings.HasSuffix(c.V.Oracle, "changeset/phantom") {
 			return is(c.V.OpVer)
 		}
 		// an earlier operation of the history loaded a phantom version (the model says that version does not
